@@ -14,10 +14,15 @@ with tempfile.TemporaryDirectory() as td:
     facts = json.load(open(os.path.join(td, "f.json")))
 want = facts["sender_src"]
 lit = json.dumps(want, indent=8, sort_keys=True)
+# C07 additionally pins the other writers of the position (Model/PositionWriters.lean); the closing
+# brace of the first dictionary must not be followed by a newline (the pattern below ends at "},\n")
+lit7 = json.dumps(facts["position_writers_src"], indent=8, sort_keys=True)
 for pid in ["C01", "C02", "C07", "C09"]:
     p = os.path.join(root, "checks", "p", pid + ".py")
     s = open(p).read()
     new = '"expected_facts": {"sender_src": ' + lit + '},'
+    if pid == "C07":
+        new = '"expected_facts": {"sender_src": ' + lit + ', "position_writers_src": ' + lit7 + '},'
     s2, n = re.subn(r'"expected_facts": \{.*?\},\n', new + "\n", s, count=1, flags=re.S)
     if n != 1:
         sys.exit(f"{p}: expected_facts not found")
